@@ -80,8 +80,14 @@ impl Add<SystemTime> for IggyTimestamp {
 }
 
 impl Default for IggyTimestamp {
+    #[cfg(not(iggy_verif))]
     fn default() -> Self {
         Self(SystemTime::now())
+    }
+
+    #[cfg(iggy_verif)]
+    fn default() -> Self {
+        Self(crate::verif::now())
     }
 }
 
